@@ -553,6 +553,11 @@ func (sh *funcShape) pureForwarder() bool {
 // inline expands calls to repository functions that are pure forwarders
 // (static callees only), to the given depth.
 func (p *Program) inline(t *Term, depth int) *Term {
+	return p.inlineIn(t, depth, nil)
+}
+
+// inlineIn expands forwarders of one package only (only != nil).
+func (p *Program) inlineIn(t *Term, depth int, only *types.Package) *Term {
 	if t == nil || depth < 0 {
 		return t
 	}
@@ -560,11 +565,11 @@ func (p *Program) inline(t *Term, depth int) *Term {
 		n := *t
 		n.Args = make([]*Term, len(t.Args))
 		for i, a := range t.Args {
-			n.Args[i] = p.inline(a, depth)
+			n.Args[i] = p.inlineIn(a, depth, only)
 		}
 		t = &n
 	}
-	if t.Kind != "call" || depth == 0 || t.Fn == nil || !p.IsRepoPkg(t.Fn.Pkg()) {
+	if t.Kind != "call" || depth == 0 || t.Fn == nil || !p.IsRepoPkg(t.Fn.Pkg()) || (only != nil && t.Fn.Pkg() != only) {
 		return t
 	}
 	sig := t.Fn.Type().(*types.Signature)
@@ -584,5 +589,5 @@ func (p *Program) inline(t *Term, depth int) *Term {
 		args = args[1:]
 	}
 	body := sh.final().subst(recv, args)
-	return p.inline(body, depth-1)
+	return p.inlineIn(body, depth-1, only)
 }
